@@ -59,7 +59,18 @@ pub struct FiberState { pub frames: nat, pub handlers: nat, pub has_caller: bool
 pub struct ObjFiber { }
 
 // the VM as far as this unit is concerned: ip, active fiber handle, the flag, and (ghost) the content of fiber cells
+// the module registry as far as this unit is concerned: how many modules are registered
+pub struct ModReg { pub ghost n: nat }
+impl ModReg {
+    #[verifier::external_body]
+    fn len(&self) -> (r: usize) ensures r == self.n { unimplemented!() }
+}
+// R23: debug_assert!(E) — a panic in the checked build configuration when E is false
+#[verifier::external_body]
+fn debug_assert_checked(b: bool) requires b { unimplemented!() }
+
 pub struct Vm {
+    pub modules: ModReg,
     pub ip: usize,
     pub fiber: Option<Root<RefCell<ObjFiber>>>,
     pub handling_exception: bool,
@@ -77,12 +88,12 @@ impl Vm {
 
     #[verifier::external_body]
     fn module(&mut self, path: &Gc<ObjString>) -> (r: Gc<RefCell<ObjModule>>)
-        ensures final(self).ip == old(self).ip, final(self).fiber == old(self).fiber, final(self).handling_exception == old(self).handling_exception, final(self).fibers == old(self).fibers
+        ensures final(self).modules.n >= 1, final(self).ip == old(self).ip, final(self).fiber == old(self).fiber, final(self).handling_exception == old(self).handling_exception, final(self).fibers == old(self).fibers
     { unimplemented!() }
     #[verifier::external_body]
     fn new_root_obj_closure(&mut self, function: Gc<ObjFunction>, module: Gc<RefCell<ObjModule>>) -> (r: Root<ObjClosure>)
         ensures r.obj().function == function,
-            final(self).ip == old(self).ip, final(self).fiber == old(self).fiber, final(self).handling_exception == old(self).handling_exception, final(self).fibers == old(self).fibers
+            final(self).ip == old(self).ip, final(self).fiber == old(self).fiber, final(self).handling_exception == old(self).handling_exception, final(self).fibers == old(self).fibers, final(self).modules == old(self).modules
     { unimplemented!() }
     // vm.rs new_root_obj_fiber -> ObjFiber::new: one frame for the closure, empty stack, no handler records, no
     // caller, no parked return; a cell nobody else has
@@ -90,7 +101,7 @@ impl Vm {
     fn new_root_obj_fiber(&mut self, closure: Gc<ObjClosure>) -> (r: Root<RefCell<ObjFiber>>)
         ensures !old(self).fibers.dom().contains(r.id()),
             final(self).fibers == old(self).fibers.insert(r.id(), FiberState { frames: 1, handlers: 0, has_caller: false, parked_return: false }),
-            final(self).ip == old(self).ip, final(self).fiber == old(self).fiber, final(self).handling_exception == old(self).handling_exception,
+            final(self).ip == old(self).ip, final(self).fiber == old(self).fiber, final(self).handling_exception == old(self).handling_exception, final(self).modules == old(self).modules,
     { unimplemented!() }
     // vm.rs load_fiber with no fiber active (contract: unit `fiberx`): the fiber becomes active, its content is kept
     // except for the closure slot pushed on its stack
@@ -98,18 +109,26 @@ impl Vm {
     fn load_fiber(&mut self, fiber: Gc<RefCell<ObjFiber>>, arg: Option<Value>) -> (r: Result<(), Error>)
         requires old(self).fiber is None, old(self).fibers.dom().contains(fiber.id())
         ensures r is Ok ==> (final(self).fiber matches Some(f) && f.id() == fiber.id()),
-            final(self).fibers == old(self).fibers, final(self).handling_exception == old(self).handling_exception,
+            final(self).fibers == old(self).fibers, final(self).handling_exception == old(self).handling_exception, final(self).modules == old(self).modules,
             r is Err ==> final(self).fiber == old(self).fiber,
     { unimplemented!() }
     #[verifier::external_body]
     fn push(&mut self, value: Value)
-        ensures final(self).ip == old(self).ip, final(self).fiber == old(self).fiber, final(self).handling_exception == old(self).handling_exception, final(self).fibers == old(self).fibers
+        ensures final(self).ip == old(self).ip, final(self).fiber == old(self).fiber, final(self).handling_exception == old(self).handling_exception, final(self).fibers == old(self).fibers, final(self).modules == old(self).modules
     { unimplemented!() }
-    // the interpreter loop: may only be entered from a clean start
+    // the interpreter loop proper (the `loop { … }` of Vm::run): may only be entered from a clean start
     #[verifier::external_body]
-    fn run(&mut self) -> Result<Value, Error>
+    fn run_loop(&mut self) -> Result<Value, Error>
         requires old(self).clean_start()
     { unimplemented!() }
+    // Vm::run: whatever stands before the interpreter loop must not panic in any run a host can start — in particular
+    // not because an earlier snippet imported a module (modules persist between runs, so the registry may hold any
+    // number >= 1 of them).
+    //@fn file=yarel/src/vm.rs path=Vm::run ret=r
+    //@  truncate_at "loop {" => "self.run_loop()"
+    //@  rewrite R23
+    //@  requires old(self).clean_start(), old(self).modules.n >= 1
+    //@end
     #[verifier::external_body]
     fn runtime_error(&mut self, error: &mut Error) -> Error { unimplemented!() }
 
@@ -120,7 +139,7 @@ impl Vm {
     //@  subst "ptr::null()" => "null_ip()"
     //@  requires function.obj().arity >= 1
     //@  after_stmt "self.load_fiber(fiber.as_gc(), None)?" let ghost pre = *self;
-    //@  loop 0 invariant self.fiber == pre.fiber, self.fibers == pre.fibers, self.handling_exception == pre.handling_exception
+    //@  loop 0 invariant self.fiber == pre.fiber, self.fibers == pre.fibers, self.handling_exception == pre.handling_exception, self.modules == pre.modules
     //@  assert @run_starts_with_no_exception_in_flight before_stmt "match self.run()" !self.handling_exception
     //@  assert @run_starts_on_a_fresh_fiber before_stmt "match self.run()" self.fiber matches Some(f) && self.fibers.dom().contains(f.id()) && self.fibers[f.id()] == (FiberState { frames: 1, handlers: 0, has_caller: false, parked_return: false })
     //@  ensures args@.len() != function.obj().arity - 1 ==> (r matches Err(e) && e.kind is TypeError)
